@@ -812,6 +812,23 @@ func c10Run(t *testing.T, out *vfOut, h c10History) {
 				fail(i, "given-not-in-table", "%s given to %s, table has %d leases for it", c10Addr(r.YI), c10MAC(o.Mac), holders)
 			}
 		}
+		// Reservations change only through the static-lease API.
+		if o.Kind < c10StaticAdd || o.Kind > c10StaticRemove {
+			var sb, sa []c10Lease
+			for _, l := range before {
+				if l.Kind == 0 {
+					sb = append(sb, l)
+				}
+			}
+			for _, l := range after {
+				if l.Kind == 0 {
+					sa = append(sa, l)
+				}
+			}
+			if !c10SameLeases(sb, sa) && !(o.Kind == c10Restart && !diskCurrent) {
+				fail(i, "reservation-changed", "static leases changed from %v to %v without the static-lease API", sb, sa)
+			}
+		}
 		if o.Kind == c10Discover && !hadLease && freeBefore > 0 {
 			if !(r.Code == 1 && dhcpv4.MessageType(r.MT) == dhcpv4.MessageTypeOffer && r.YI >= cf.Start && r.YI <= cf.End) {
 				fail(i, "liveness", "DISCOVER from a new client with %d free pool addresses answered %s", freeBefore, r.coq())
